@@ -64,7 +64,7 @@ def _cases(ctx):
             gen.add_alias(rng, c)       # one index object as two dimensions of the cube
         n = c["dense"][0].shape[0] if c["dense"] else gen.pick(rng, [1, 4, 9])
         c["n"] = n
-        c.update(aggr.agg_inputs(rng, n))
+        c.update(aggr.agg_inputs(rng, n, tiny_weights=True))
         c["sentinel"] = gen.pick(rng, SENTINELS)
         yield c
 
